@@ -83,25 +83,30 @@ func checkC20(c *Ctx, r *Report) {
 					}
 				}
 			}
-			resCmp := func(v ssa.Value, state int64) (string, bool) {
-				b, ok := v.(*ssa.BinOp)
-				if !ok || b.Op != token.EQL {
-					return "", false
+			// resCmp: v compares the captured result of one counter with a state constant; sense: true when v means "equal"
+			resCmp := func(v ssa.Value, state int64) (ctr string, sense bool, ok bool) {
+				b, isB := v.(*ssa.BinOp)
+				if !isB || (b.Op != token.EQL && b.Op != token.NEQ) {
+					return "", false, false
 				}
-				n, isC := constInt(b.Y)
+				x, y := b.X, b.Y
+				if _, isC := constInt(x); isC {
+					x, y = y, x
+				}
+				n, isC := constInt(y)
 				if !isC || n != state {
-					return "", false
+					return "", false, false
 				}
-				u, ok := b.X.(*ssa.UnOp)
-				if !ok || u.Op != token.MUL {
-					return "", false
+				u, isU := x.(*ssa.UnOp)
+				if !isU || u.Op != token.MUL {
+					return "", false, false
 				}
-				fv, ok := u.X.(*ssa.FreeVar)
-				if !ok {
-					return "", false
+				fv, isFV := u.X.(*ssa.FreeVar)
+				if !isFV {
+					return "", false, false
 				}
-				ctr, ok := counterOf[fv.Name()]
-				return ctr, ok
+				ctr, ok = counterOf[fv.Name()]
+				return ctr, b.Op == token.EQL, ok
 			}
 			protoCall := func(v ssa.Value, code int64) bool {
 				ci := isResultOfCall(v, 0, swarmP+".isProtocolAddr")
@@ -111,65 +116,79 @@ func checkC20(c *Ctx, r *Report) {
 				n, ok := constInt(ci.Common().Args[1])
 				return ok && n == code && isParamVar(c, ci.Common().Args[0], "a")
 			}
-			fam := []struct {
-				ctr  string
-				code int64
-				name string
-			}{{"udp", pUDP, "UDP"}, {"ipv6", pIP6, "IPv6"}}
-			var falseRets []ssa.Instruction
 			for _, ret := range returnsOf(cl) {
-				if b, ok := constBool(retVal(ret, 0)); ok && !b {
-					falseRets = append(falseRets, ret)
-				} else if !ok {
-					r1.Fail("FilterAddrs$filter: non-constant return", instrPos(ret), "cannot classify the filter's answer", "")
-				}
-			}
-			if len(falseRets) == 0 {
-				r1.Fail("FilterAddrs$filter: return false", cl.Pos(), "no removing exit found", "")
-			}
-			r1.guard(cl, "return false", falseRets, "IsPublicAddr(a)==true", edgeBool(func(v ssa.Value) bool {
-				ci := isResultOfCall(v, 0, "github.com/multiformats/go-multiaddr/net.IsPublicAddr")
-				return ci != nil && isParamVar(c, ci.Common().Args[0], "a")
-			}, true), nil)
-			for _, ret := range falseRets {
-				matched := ""
-				for _, f := range fam {
-					f := f
-					q1 := &Cut{Fn: cl, Target: isInstr(ret), EdgeCut: edgeBool(func(v ssa.Value) bool { ctr, ok := resCmp(v, stBlocked); return ok && ctr == f.ctr }, true)}
-					q2 := &Cut{Fn: cl, Target: isInstr(ret), EdgeCut: edgeBool(func(v ssa.Value) bool { return protoCall(v, f.code) }, true)}
-					w1, _ := q1.Run(c)
-					w2, _ := q2.Run(c)
-					if w1 == "" && w2 == "" {
-						matched = f.name
+				if _, ok := constBool(retVal(ret, 0)); !ok {
+					if _, isPhi := retVal(ret, 0).(*ssa.Phi); !isPhi {
+						r1.Fail("FilterAddrs$filter: non-constant return", instrPos(ret), "cannot classify the filter's answer", "")
 					}
 				}
-				r1.Check(matched != "", "FilterAddrs$filter: return false past (counter==Blocked && address of that kind) of one family", instrPos(ret), 4, "family "+matched,
-					"an address can be removed without its own kind's counter being Blocked (private / other-kind addresses must never be touched)", "")
-				// probing: unreachable when a family is probing and the address is of that family
-				for _, f := range fam {
-					f := f
-					probing := func(v ssa.Value) bool { ctr, ok := resCmp(v, stProbing); return ok && ctr == f.ctr }
-					// edges that leave the "probing && isKind" conjunction on the false side
-					cut := func(b *ssa.BasicBlock, s int) bool {
-						i := ifOf(b)
-						if i == nil || s != 1 {
-							return false
-						}
-						if probing(i.Cond) {
-							return true
-						}
-						if protoCall(i.Cond, f.code) && len(b.Preds) == 1 {
-							pi := ifOf(b.Preds[0])
-							return pi != nil && probing(pi.Cond) && b.Preds[0].Succs[0] == b
-						}
-						return false
-					}
-					q := &Cut{Fn: cl, Target: isInstr(ret), EdgeCut: cut}
-					w, n := q.Run(c)
-					r1.Check(w == "", "FilterAddrs$filter: return false not reachable when "+f.name+" is probing and the address is "+f.name, instrPos(ret), n+1, "",
-						"probe requests are filtered: while probing every address of that kind must pass", w)
+			}
+			// the filter's answer as a function of: public, isUDP, isIPv6, and each counter's answer
+			const (
+				aPublic = iota
+				aUDP
+				aIP6
+				aUDPProbing
+				aUDPBlocked
+				aIP6Probing
+				aIP6Blocked
+			)
+			stateAtom := func(ctr string, state int64) atomPred {
+				return func(v ssa.Value) (bool, bool) {
+					k, sense, ok := resCmp(v, state)
+					return ok && k == ctr, sense
 				}
 			}
+			atoms := []atomPred{
+				func(v ssa.Value) (bool, bool) {
+					ci := isResultOfCall(v, 0, "github.com/multiformats/go-multiaddr/net.IsPublicAddr")
+					return ci != nil && isParamVar(c, ci.Common().Args[0], "a"), true
+				},
+				func(v ssa.Value) (bool, bool) { return protoCall(v, pUDP), true },
+				func(v ssa.Value) (bool, bool) { return protoCall(v, pIP6), true },
+				stateAtom("udp", stProbing), stateAtom("udp", stBlocked),
+				stateAtom("ipv6", stProbing), stateAtom("ipv6", stBlocked),
+			}
+			tab, okTab := boolReturnTable(cl, atoms, 0)
+			if !okTab {
+				r1.Fail("FilterAddrs$filter: decision table", cl.Pos(), "the filter's control flow could not be tabulated", "")
+			}
+			bit := func(a, i int) bool { return a&(1<<i) != 0 }
+			type cond struct {
+				key, why string
+				holds    func(a int) bool
+			}
+			conds := []cond{
+				{"FilterAddrs$filter: a removed address is public", "a private address is removed",
+					func(a int) bool { return bit(a, aPublic) }},
+				{"FilterAddrs$filter: a removed address is of a kind whose own counter is Blocked", "an address can be removed without its own kind's counter being Blocked (other-kind addresses must never be touched)",
+					func(a int) bool {
+						return (bit(a, aUDP) && bit(a, aUDPBlocked)) || (bit(a, aIP6) && bit(a, aIP6Blocked))
+					}},
+				{"FilterAddrs$filter: no UDP address is removed while UDP is probing", "probe requests are filtered: while probing every address of that kind must pass",
+					func(a int) bool { return !(bit(a, aUDP) && bit(a, aUDPProbing)) }},
+				{"FilterAddrs$filter: no IPv6 address is removed while IPv6 is probing", "probe requests are filtered: while probing every address of that kind must pass",
+					func(a int) bool { return !(bit(a, aIP6) && bit(a, aIP6Probing)) }},
+			}
+			nRemoving := 0
+			for _, cd := range conds {
+				bad := ""
+				n := 0
+				for a := 0; a < 1<<len(atoms); a++ {
+					if (bit(a, aUDPProbing) && bit(a, aUDPBlocked)) || (bit(a, aIP6Probing) && bit(a, aIP6Blocked)) {
+						continue // a counter gives one answer
+					}
+					n++
+					if tab[a]&1 != 0 { // may answer false: the address is removed
+						nRemoving++
+						if !cd.holds(a) && bad == "" {
+							bad = fmt.Sprintf("public=%v udp=%v ipv6=%v udpProbing=%v udpBlocked=%v ipv6Probing=%v ipv6Blocked=%v", bit(a, aPublic), bit(a, aUDP), bit(a, aIP6), bit(a, aUDPProbing), bit(a, aUDPBlocked), bit(a, aIP6Probing), bit(a, aIP6Blocked))
+						}
+					}
+				}
+				r1.Check(bad == "" && okTab, cd.key, cl.Pos(), n, "", cd.why, bad)
+			}
+			r1.Check(nRemoving > 0, "FilterAddrs$filter: some address is removed", cl.Pos(), 1, "", "the filter never removes anything: the table did not recognise the removing exit", "")
 		}
 		// a counter is consulted (which may consume the probe slot) only when the request
 		// contains a public address of that counter's kind
@@ -442,23 +461,49 @@ func checkC20(c *Ctx, r *Report) {
 		dials := findInstrs(da, callPred("(core/transport.*).Dial", "(core/transport.*).DialWithUpdates"))
 		recK := "(*" + swarmP + ".blackHoleDetector).RecordResult"
 		recs := callsIn(da, recK)
-		if len(dials) == 0 || len(recs) != 1 {
+		if len(dials) == 0 || len(recs) == 0 {
 			r5.Fail("dialAddr: dial + RecordResult sites", da.Pos(), "required sites missing", "")
 		} else {
 			q := &Cut{Fn: da, From: dials, Target: func(in ssa.Instruction) bool { _, ok := in.(*ssa.Return); return ok }, Sep: callPred(recK)}
 			r5.mustPass(da, "dialAddr: every exit after a transport dial passes bhd.RecordResult", q, len(dials))
-			a := callArgs(recs[0])
-			okArgs := isParamVar(c, a[1], "addr")
-			if b, ok := strip2(a[2]).(*ssa.BinOp); ok && b.Op == token.EQL && isNilConst(b.Y) {
-				for _, l := range phiLeaves(b.X) {
+			isDialErr := func(v ssa.Value) bool {
+				ls := phiLeaves(v)
+				if len(ls) == 0 {
+					return false
+				}
+				for _, l := range ls {
 					if isResultOfCall(l, 1, "(core/transport.*).Dial", "(core/transport.*).DialWithUpdates") == nil {
-						okArgs = false
+						return false
 					}
 				}
-			} else {
-				okArgs = false
+				return true
 			}
-			r5.Check(okArgs, "dialAddr: RecordResult(addr, dialErr == nil)", instrPos(recs[0].(ssa.Instruction)), 1, "", "the recorded outcome is not the outcome of this dial", "")
+			for _, d := range dials {
+				hasAddr := false
+				for _, a := range d.(ssa.CallInstruction).Common().Args {
+					if isParamVar(c, a, "addr") {
+						hasAddr = true
+					}
+				}
+				r5.Check(hasAddr, "dialAddr: the transport dials addr", instrPos(d), 1, "", "", "")
+			}
+			for _, rec := range recs {
+				a := callArgs(rec)
+				in := rec.(ssa.Instruction)
+				r5.Check(isParamVar(c, a[1], "addr"), "dialAddr: the outcome is recorded for the dialled address", instrPos(in), 1, "",
+					"failures and successes of one dial are charged to different addresses: a blocked kind may never see the success that unblocks it", describeVal(a[1]))
+				// the outcome recorded is this dial's: `err == nil`, or a constant on the branch where the error has that nil-ness
+				if bv, isC := constBool(strip2(a[2])); isC {
+					w, n := (&Cut{Fn: da, Target: isInstr(in), EdgeCut: edgeNil(isDialErr, bv)}).Run(c)
+					r5.Check(w == "", fmt.Sprintf("dialAddr: RecordResult(addr, %v) only where the dial error is %snil", bv, map[bool]string{true: "", false: "non-"}[bv]), instrPos(in), n+1, "", "the recorded outcome is not the outcome of this dial", w)
+				} else {
+					bo, ok := strip2(a[2]).(*ssa.BinOp)
+					r5.Check(ok && bo.Op == token.EQL && isNilConst(bo.Y) && isDialErr(bo.X), "dialAddr: RecordResult(addr, dialErr == nil)", instrPos(in), 1, "", "the recorded outcome is not the outcome of this dial", "")
+				}
+				// one record per dial
+				w, n := (&Cut{Fn: da, From: []ssa.Instruction{in}, Target: callPred(recK)}).Run(c)
+				r5.Check(w == "", "dialAddr: one RecordResult per dial", instrPos(in), n+1, "", "a dial is counted twice", w)
+			}
 		}
 	}
 }
